@@ -752,7 +752,7 @@ static void fill_requested_extension(struct websocket *s, const char  *start, si
 			i++;
 			parameter_count++;
 			if (parameter_count == 5) return;
-			while (isspace(*(start + i))) i++;
+			while ((i < length) && isspace(*(start + i))) i++;
 			parameter[parameter_count] = start + i;
 		}
 	}
@@ -791,7 +791,7 @@ static void fill_requested_extension(struct websocket *s, const char  *start, si
 					if (s->extension_compression.client_max_window_bits > tmp) {
 						s->extension_compression.client_max_window_bits = tmp;
 					}
-				} else {
+				} else if (parameter_length[i] == name_length + 3) {
 					if (*value_start != '1') return;
 					value_start++;
 					tmp = *value_start;
@@ -800,6 +800,8 @@ static void fill_requested_extension(struct websocket *s, const char  *start, si
 					if (s->extension_compression.client_max_window_bits > 10 + tmp) {
 						s->extension_compression.client_max_window_bits = 10 + tmp;
 					}
+				} else {
+					return;	//'=' without a value
 				}
 			}
 			write_to_response(s, parameter_name, name_length, &response_length, s->extension_compression.client_max_window_bits);
@@ -812,6 +814,7 @@ static void fill_requested_extension(struct websocket *s, const char  *start, si
 		if (0 == memcmp(parameter_name, parameter[i], name_length)) {
 			if (client_offered_s_max_window) return;
 			if ((name_length + 3) < parameter_length[i]) return;
+			if (parameter_length[i] <= name_length) return;	//a value is required
 			const char *value_start = parameter[i] + name_length;
 			if (*value_start != '=') return;
 			value_start++;
@@ -823,7 +826,7 @@ static void fill_requested_extension(struct websocket *s, const char  *start, si
 				if (s->extension_compression.server_max_window_bits > tmp) {
 					s->extension_compression.server_max_window_bits = tmp;
 				}
-			} else {
+			} else if (parameter_length[i] == name_length + 3) {
 				if (*value_start != '1') return;
 				value_start++;
 				unsigned int tmp = *value_start;
@@ -832,6 +835,8 @@ static void fill_requested_extension(struct websocket *s, const char  *start, si
 				if (s->extension_compression.server_max_window_bits > 10 + tmp) {
 					s->extension_compression.server_max_window_bits = 10 + tmp;
 				}
+			} else {
+				return;	//'=' without a value
 			}
 			write_to_response(s, parameter_name, name_length, &response_length, s->extension_compression.server_max_window_bits);
 			client_offered_s_max_window = true;
